@@ -6,6 +6,8 @@ mod seq_aggregator;
 mod seq_store;
 mod seq_sender;
 mod seq_mempool;
+mod seq_full;
+mod hostile;
 mod util;
 mod world;
 #[path = "/repo/node/src/config.rs"]
@@ -32,6 +34,7 @@ fn main() {
     if args.iter().any(|a| a == "--part") {
         let part = match prop {
             "C11" => seq_mempool::c11_part(tier),
+            "C15" => hostile::c15_part(tier),
             _ => serde_json::json!({}),
         };
         println!("PART-JSON {}", part);
@@ -56,10 +59,12 @@ fn main() {
         "C09" => protochecks::c09(tier),
         "C10" => protochecks::c10(tier),
         "C19" => protochecks::c19(tier),
+        "C08" => seq_full::c08(tier),
         "C11dbg" => { seq_mempool::debug_c11(); 0 }
         "C11" => seq_mempool::c11(tier),
         "C12" => seq_mempool::c12(tier),
         "C14" => seq_sender::c14(tier),
+        "C15" => hostile::c15(tier),
         "C16" => seq_store::c16(tier),
         "C17" => enumchecks::c17(tier),
         "C18" => enumchecks::c18(tier),
